@@ -57,7 +57,8 @@ def plan(tier, prop):
                 "= the placer returned or raised a documented error; "
                 "distinct = distinct abstract event traces (placer, kernel "
                 "steps, callbacks, outcome)",
-        "expected_probes": ["completeness_instance", "cancelled",
+        "expected_probes": ["no_working_chip",
+                            "completeness_instance", "cancelled",
                             "adversarial_rng", "clock_jump_past_warn",
                             "kernel_steps_checked", "callback_checked",
                             "insufficient_resource", "same_chip_group",
